@@ -1,1 +1,530 @@
-(* placeholder: proofs are delivered into this file *)
+(* Proofs for C17 (Properties_C17.v) over CliModel: an invariant relating the parser state after
+   [parse_all pak0 ts = Some p] to the token list (proved by snoc-induction, so the start state
+   stays pak0), then finite case analyses of post_checks / run_main. *)
+From Coq Require Import ZArith List Bool Lia ZifyBool.
+From Wencry Require Import CliModel.
+Import ListNotations.
+Local Open Scope Z_scope.
+
+(* ------------------------------------------------------------------ *)
+(* vocabulary on [ts ++ [t]]                                            *)
+
+Definition code (t : tok) : Z :=
+  match t with T_e => 101 | T_d => 100 | T_v => 118 | T_V => 86 | T_h => 104 | _ => 117 end.
+
+Definition isSome {A : Type} (o : option A) : bool := match o with Some _ => true | None => false end.
+
+Lemma code_mode_tok : forall t, is_mode_tok t = true -> code t <> 117.
+Proof. intros t Ht; destruct t; cbn in *; try discriminate; lia. Qed.
+
+Lemma count_modes_snoc : forall ts t,
+  count_modes (ts ++ [t]) = (count_modes ts + (if is_mode_tok t then 1 else 0))%nat.
+Proof.
+  intros ts t. unfold count_modes. rewrite filter_app, app_length.
+  cbn [filter]. destruct (is_mode_tok t); reflexivity.
+Qed.
+
+Lemma existsb_snoc : forall (f : tok -> bool) ts t, existsb f (ts ++ [t]) = existsb f ts || f t.
+Proof. intros f ts t. rewrite existsb_app. cbn [existsb]. rewrite orb_false_r. reflexivity. Qed.
+
+Lemma in_snoc : forall (x t : tok) ts, In x (ts ++ [t]) <-> In x ts \/ x = t.
+Proof.
+  intros x t ts. rewrite in_app_iff. cbn [In]. split.
+  - intros [H|[H|[]]]; [left; exact H | right; symmetry; exact H].
+  - intros [H|H]; [left; exact H | right; left; symmetry; exact H].
+Qed.
+
+Lemma parse_all_snoc : forall ts p t,
+  parse_all p (ts ++ [t]) = match parse_all p ts with Some p' => parse_one p' t | None => None end.
+Proof.
+  induction ts as [|a ts IH]; intros p t.
+  - cbn [app parse_all]. destruct (parse_one p t); reflexivity.
+  - cbn [app parse_all]. destruct (parse_one p a) as [p1|]; [apply IH | reflexivity].
+Qed.
+
+(* ------------------------------------------------------------------ *)
+(* the invariant                                                        *)
+
+Record Inv (ts : list tok) (p : pak) : Prop := {
+  inv_m0  : mode p = 117 -> count_modes ts = 0%nat;
+  inv_m1  : mode p <> 117 -> count_modes ts = 1%nat;
+  inv_min : forall t, is_mode_tok t = true -> In t ts -> mode p = code t;
+  inv_mex : mode p = 117 \/ exists t, is_mode_tok t = true /\ In t ts /\ mode p = code t;
+  inv_key : has_valid_key ts = isSome (key p);
+  inv_out : has_output ts = out p;
+  inv_fp  : has_input ts = isSome (fp p);
+  inv_ne  : has_no_echo ts = no_echo p;
+  inv_kinv : ~ In (T_k KInvalid) ts;
+  inv_c   : forall n, In (T_cmode n) ts -> ctype p = n /\ 0 <= n;
+  inv_h   : forall n, In (T_hmode n) ts -> htype p = n /\ 0 <= n
+}.
+
+Lemma Inv_nil : Inv [] pak0.
+Proof.
+  constructor; cbn; try reflexivity; try tauto; try (intros; contradiction).
+Qed.
+
+(* a mode token: set_mode *)
+Lemma Inv_step_mode : forall ts p t p',
+  Inv ts p -> is_mode_tok t = true -> set_mode p (code t) = Some p' -> Inv (ts ++ [t]) p'.
+Proof.
+  intros ts p t p' [m0 m1 mi mex ik io ifp ine ikv ic ih] Ht Hs.
+  unfold set_mode in Hs.
+  destruct (Z.eqb_spec (mode p) 117) as [Hm|Hm]; [|discriminate Hs].
+  injection Hs as <-.
+  pose proof (code_mode_tok t Ht) as Hc.
+  constructor; cbn [mode ctype htype fp out key no_echo dflt_ok].
+  - intros H; contradiction.
+  - intros _. rewrite count_modes_snoc, Ht, (m0 Hm). reflexivity.
+  - intros t' Ht' Hin. apply in_snoc in Hin. destruct Hin as [Hin| ->]; [|reflexivity].
+    exfalso. apply (code_mode_tok t' Ht'). rewrite <- (mi t' Ht' Hin). exact Hm.
+  - right. exists t. split; [exact Ht|]. split; [|reflexivity]. apply in_snoc. right; reflexivity.
+  - unfold has_valid_key. rewrite existsb_snoc. fold (has_valid_key ts). rewrite ik.
+    destruct t; try discriminate Ht; apply orb_false_r.
+  - unfold has_output. rewrite existsb_snoc. fold (has_output ts). rewrite io.
+    destruct t; try discriminate Ht; apply orb_false_r.
+  - unfold has_input. rewrite existsb_snoc. fold (has_input ts). rewrite ifp.
+    destruct t; try discriminate Ht; apply orb_false_r.
+  - unfold has_no_echo. rewrite existsb_snoc. fold (has_no_echo ts). rewrite ine.
+    destruct t; try discriminate Ht; apply orb_false_r.
+  - intros Hin. apply in_snoc in Hin. destruct Hin as [Hin|Hin]; [exact (ikv Hin)|].
+    subst t; discriminate Ht.
+  - intros n Hin. apply in_snoc in Hin. destruct Hin as [Hin|Hin]; [exact (ic n Hin)|].
+    subst t; discriminate Ht.
+  - intros n Hin. apply in_snoc in Hin. destruct Hin as [Hin|Hin]; [exact (ih n Hin)|].
+    subst t; discriminate Ht.
+Qed.
+
+(* a non-mode token that is not --cmode/--hmode and leaves mode, ctype, htype alone *)
+Lemma Inv_step_plain : forall ts p t p',
+  Inv ts p -> is_mode_tok t = false ->
+  (forall n, t <> T_cmode n) -> (forall n, t <> T_hmode n) -> t <> T_k KInvalid ->
+  mode p' = mode p -> ctype p' = ctype p -> htype p' = htype p ->
+  isSome (key p') = isSome (key p) || (match t with T_k (KValid _) => true | _ => false end) ->
+  out p' = out p || (match t with T_o true => true | _ => false end) ->
+  isSome (fp p') = isSome (fp p) || (match t with T_i _ _ FPlain | T_i _ _ (FWenc _) => true | _ => false end) ->
+  no_echo p' = no_echo p || (match t with T_n => true | _ => false end) ->
+  Inv (ts ++ [t]) p'.
+Proof.
+  intros ts p t p' [m0 m1 mi mex ik io ifp ine ikv ic ih] Ht Hnc Hnh Hnk Em Ec Eh Ek Eo Ef En.
+  constructor.
+  - rewrite Em. intros H. rewrite count_modes_snoc, Ht, (m0 H). reflexivity.
+  - rewrite Em. intros H. rewrite count_modes_snoc, Ht, (m1 H). reflexivity.
+  - rewrite Em. intros t' Ht' Hin. apply in_snoc in Hin. destruct Hin as [Hin| ->].
+    + exact (mi t' Ht' Hin).
+    + rewrite Ht in Ht'; discriminate Ht'.
+  - rewrite Em. destruct mex as [H|[t' [Ht' [Hin H]]]]; [left; exact H|].
+    right. exists t'. split; [exact Ht'|]. split; [|exact H]. apply in_snoc. left; exact Hin.
+  - unfold has_valid_key. rewrite existsb_snoc. fold (has_valid_key ts). rewrite ik, Ek. reflexivity.
+  - unfold has_output. rewrite existsb_snoc. fold (has_output ts). rewrite io, Eo. reflexivity.
+  - unfold has_input. rewrite existsb_snoc. fold (has_input ts). rewrite ifp, Ef. reflexivity.
+  - unfold has_no_echo. rewrite existsb_snoc. fold (has_no_echo ts). rewrite ine, En. reflexivity.
+  - intros Hin. apply in_snoc in Hin. destruct Hin as [Hin|Hin]; [exact (ikv Hin)|].
+    apply Hnk. symmetry; exact Hin.
+  - rewrite Ec. intros n Hin. apply in_snoc in Hin. destruct Hin as [Hin|Hin]; [exact (ic n Hin)|].
+    exfalso. apply (Hnc n). symmetry; exact Hin.
+  - rewrite Eh. intros n Hin. apply in_snoc in Hin. destruct Hin as [Hin|Hin]; [exact (ih n Hin)|].
+    exfalso. apply (Hnh n). symmetry; exact Hin.
+Qed.
+
+(* --cmode n accepted: ctype was -1, 0 <= n <= 127 *)
+Lemma Inv_step_cmode : forall ts p n,
+  Inv ts p -> ctype p = -1 -> 0 <= n ->
+  Inv (ts ++ [T_cmode n])
+      {| mode := mode p; ctype := n; htype := htype p; fp := fp p; out := out p; key := key p;
+         no_echo := no_echo p; dflt_ok := dflt_ok p |}.
+Proof.
+  intros ts p n [m0 m1 mi mex ik io ifp ine ikv ic ih] Hc Hn.
+  constructor; cbn [mode ctype htype fp out key no_echo dflt_ok].
+  - intros H. rewrite count_modes_snoc, (m0 H). reflexivity.
+  - intros H. rewrite count_modes_snoc, (m1 H). reflexivity.
+  - intros t' Ht' Hin. apply in_snoc in Hin. destruct Hin as [Hin| ->].
+    + exact (mi t' Ht' Hin).
+    + discriminate Ht'.
+  - destruct mex as [H|[t' [Ht' [Hin H]]]]; [left; exact H|].
+    right. exists t'. split; [exact Ht'|]. split; [|exact H]. apply in_snoc. left; exact Hin.
+  - unfold has_valid_key. rewrite existsb_snoc. fold (has_valid_key ts). rewrite ik. apply orb_false_r.
+  - unfold has_output. rewrite existsb_snoc. fold (has_output ts). rewrite io. apply orb_false_r.
+  - unfold has_input. rewrite existsb_snoc. fold (has_input ts). rewrite ifp. apply orb_false_r.
+  - unfold has_no_echo. rewrite existsb_snoc. fold (has_no_echo ts). rewrite ine. apply orb_false_r.
+  - intros Hin. apply in_snoc in Hin. destruct Hin as [Hin|Hin]; [exact (ikv Hin)|discriminate Hin].
+  - intros n' Hin. apply in_snoc in Hin. destruct Hin as [Hin|Hin].
+    + exfalso. destruct (ic n' Hin) as [E L]. lia.
+    + injection Hin as ->. split; [reflexivity|exact Hn].
+  - intros n' Hin. apply in_snoc in Hin. destruct Hin as [Hin|Hin]; [exact (ih n' Hin)|discriminate Hin].
+Qed.
+
+Lemma Inv_step_hmode : forall ts p n,
+  Inv ts p -> htype p = -1 -> 0 <= n ->
+  Inv (ts ++ [T_hmode n])
+      {| mode := mode p; ctype := ctype p; htype := n; fp := fp p; out := out p; key := key p;
+         no_echo := no_echo p; dflt_ok := dflt_ok p |}.
+Proof.
+  intros ts p n [m0 m1 mi mex ik io ifp ine ikv ic ih] Hc Hn.
+  constructor; cbn [mode ctype htype fp out key no_echo dflt_ok].
+  - intros H. rewrite count_modes_snoc, (m0 H). reflexivity.
+  - intros H. rewrite count_modes_snoc, (m1 H). reflexivity.
+  - intros t' Ht' Hin. apply in_snoc in Hin. destruct Hin as [Hin| ->].
+    + exact (mi t' Ht' Hin).
+    + discriminate Ht'.
+  - destruct mex as [H|[t' [Ht' [Hin H]]]]; [left; exact H|].
+    right. exists t'. split; [exact Ht'|]. split; [|exact H]. apply in_snoc. left; exact Hin.
+  - unfold has_valid_key. rewrite existsb_snoc. fold (has_valid_key ts). rewrite ik. apply orb_false_r.
+  - unfold has_output. rewrite existsb_snoc. fold (has_output ts). rewrite io. apply orb_false_r.
+  - unfold has_input. rewrite existsb_snoc. fold (has_input ts). rewrite ifp. apply orb_false_r.
+  - unfold has_no_echo. rewrite existsb_snoc. fold (has_no_echo ts). rewrite ine. apply orb_false_r.
+  - intros Hin. apply in_snoc in Hin. destruct Hin as [Hin|Hin]; [exact (ikv Hin)|discriminate Hin].
+  - intros n' Hin. apply in_snoc in Hin. destruct Hin as [Hin|Hin]; [exact (ic n' Hin)|discriminate Hin].
+  - intros n' Hin. apply in_snoc in Hin. destruct Hin as [Hin|Hin].
+    + exfalso. destruct (ih n' Hin) as [E L]. lia.
+    + injection Hin as ->. split; [reflexivity|exact Hn].
+Qed.
+
+Lemma Inv_step : forall ts p t p', Inv ts p -> parse_one p t = Some p' -> Inv (ts ++ [t]) p'.
+Proof.
+  intros ts p t p' I Hp.
+  destruct t as [ | | | | | | lg df f | op | k | n | n | ]; cbn [parse_one] in Hp.
+  - apply (Inv_step_mode ts p T_e p' I eq_refl Hp).
+  - apply (Inv_step_mode ts p T_d p' I eq_refl Hp).
+  - apply (Inv_step_mode ts p T_v p' I eq_refl Hp).
+  - apply (Inv_step_mode ts p T_V p' I eq_refl Hp).
+  - apply (Inv_step_mode ts p T_h p' I eq_refl Hp).
+  - injection Hp as <-.
+    apply (Inv_step_plain ts p T_n _ I); cbn [mode ctype htype fp out key no_echo dflt_ok];
+      try reflexivity; try (intros; discriminate); try (symmetry; apply orb_false_r); try (symmetry; apply orb_true_r).
+  - destruct f as [ | | kid]; [discriminate Hp | | ]; injection Hp as <-.
+    + apply (Inv_step_plain ts p (T_i lg df FPlain) _ I); cbn [mode ctype htype fp out key no_echo dflt_ok isSome];
+        try reflexivity; try (intros; discriminate); try (symmetry; apply orb_false_r); try (symmetry; apply orb_true_r).
+    + apply (Inv_step_plain ts p (T_i lg df (FWenc kid)) _ I); cbn [mode ctype htype fp out key no_echo dflt_ok isSome];
+        try reflexivity; try (intros; discriminate); try (symmetry; apply orb_false_r); try (symmetry; apply orb_true_r).
+  - destruct op; [|discriminate Hp]. injection Hp as <-.
+    apply (Inv_step_plain ts p (T_o true) _ I); cbn [mode ctype htype fp out key no_echo dflt_ok isSome];
+      try reflexivity; try (intros; discriminate); try (symmetry; apply orb_false_r); try (symmetry; apply orb_true_r).
+  - destruct k as [|kid]; [discriminate Hp|]. injection Hp as <-.
+    apply (Inv_step_plain ts p (T_k (KValid kid)) _ I); cbn [mode ctype htype fp out key no_echo dflt_ok isSome];
+      try reflexivity; try (intros; discriminate); try (symmetry; apply orb_false_r); try (symmetry; apply orb_true_r).
+  - destruct (Z.eqb_spec (ctype p) (-1)) as [Hc|Hc]; [|discriminate Hp].
+    destruct ((n <? 0) || (127 <? n)) eqn:Hr; [discriminate Hp|]. injection Hp as <-.
+    apply (Inv_step_cmode ts p n I Hc). lia.
+  - destruct (Z.eqb_spec (htype p) (-1)) as [Hc|Hc]; [|discriminate Hp].
+    destruct ((n <? 0) || (127 <? n)) eqn:Hr; [discriminate Hp|]. injection Hp as <-.
+    apply (Inv_step_hmode ts p n I Hc). lia.
+  - discriminate Hp.
+Qed.
+
+Lemma parse_Inv : forall ts p, parse_all pak0 ts = Some p -> Inv ts p.
+Proof.
+  induction ts as [|t ts IH] using rev_ind; intros p Hp.
+  - cbn in Hp. injection Hp as <-. exact Inv_nil.
+  - rewrite parse_all_snoc in Hp.
+    destruct (parse_all pak0 ts) as [p1|] eqn:E; [|discriminate Hp].
+    exact (Inv_step ts p1 t p (IH p1 eq_refl) Hp).
+Qed.
+
+(* ------------------------------------------------------------------ *)
+(* consequences of the invariant                                        *)
+
+Lemma Inv_mode_cases : forall ts p, Inv ts p ->
+  mode p = 117 \/ mode p = 101 \/ mode p = 100 \/ mode p = 118 \/ mode p = 86 \/ mode p = 104.
+Proof.
+  intros ts p I. destruct (inv_mex ts p I) as [H|[t [Ht [_ H]]]]; [left; exact H|].
+  rewrite H. destruct t; try discriminate Ht; cbn [code]; lia.
+Qed.
+
+Lemma Inv_mode_V : forall ts p, Inv ts p -> mode p = 86 -> In T_V ts.
+Proof.
+  intros ts p I Hm. destruct (inv_mex ts p I) as [H|[t [Ht [Hin H]]]]; [lia|].
+  rewrite Hm in H. destruct t; try discriminate Ht; cbn [code] in H; try lia. exact Hin.
+Qed.
+
+Lemma Inv_mode_h : forall ts p, Inv ts p -> mode p = 104 -> In T_h ts.
+Proof.
+  intros ts p I Hm. destruct (inv_mex ts p I) as [H|[t [Ht [Hin H]]]]; [lia|].
+  rewrite Hm in H. destruct t; try discriminate Ht; cbn [code] in H; try lia. exact Hin.
+Qed.
+
+(* ------------------------------------------------------------------ *)
+(* post_checks and run_main                                             *)
+
+Definition Good (q : pak) : Prop :=
+  (mode q = 86 \/ mode q = 104) \/
+  (mode q = 101 /\ isSome (fp q) = true /\ isSome (key q) = true /\ out q = true /\
+   0 <= ctype q <= 4 /\ 0 <= htype q <= 2) \/
+  (mode q = 100 /\ isSome (fp q) = true /\ isSome (key q) = true /\ out q = true) \/
+  (mode q = 118 /\ isSome (fp q) = true /\ isSome (key q) = true).
+
+Lemma post_good : forall p,
+  (mode p = 117 \/ mode p = 101 \/ mode p = 100 \/ mode p = 118 \/ mode p = 86 \/ mode p = 104) ->
+  match post_checks p with
+  | None => True
+  | Some q => Good q /\ mode q = mode p /\ mode p <> 117 /\ no_echo q = no_echo p /\
+              isSome (fp q) = isSome (fp p) /\ (mode p <> 101 -> q = p)
+  end.
+Proof.
+  intros p Hm. unfold post_checks, Good. cbv zeta.
+  destruct (Z.eqb_spec (mode p) 117) as [E117|N117]; [exact I|].
+  destruct (Z.eqb_spec (mode p) 101) as [E101|N101].
+  - destruct (Z.eqb_spec (ctype p) (-1)) as [Ec1|Nc1];
+    destruct ((0 <=? ctype p) && (ctype p <? 5)) eqn:Ec;
+    destruct (Z.eqb_spec (htype p) (-1)) as [Eh1|Nh1];
+    destruct ((0 <=? htype p) && (htype p <? 3)) eqn:Eh;
+    cbv beta iota; try exact I;
+    (destruct (fp p) as [f|] eqn:Ef; [|exact I]);
+    (destruct (out p || dflt_ok p) eqn:Eo; [|exact I]);
+    cbn [mode ctype htype fp out key no_echo dflt_ok isSome];
+    repeat split; try reflexivity; try lia; try (intros; lia).
+  - destruct ((mode p =? 100) || (mode p =? 118)) eqn:Edv.
+    + destruct (fp p) as [f|] eqn:Ef; [|exact I].
+      destruct (key p) as [k|] eqn:Ek; [|exact I].
+      destruct ((mode p =? 100) && negb (out p)) eqn:Eo; [exact I|].
+      rewrite Ef, Ek. cbn [isSome].
+      repeat split; try reflexivity; try lia; try (intros; lia).
+    + repeat split; try reflexivity; try lia; try (intros; lia).
+Qed.
+
+Lemma run_good : forall q, Good q ->
+  run_main q = Exit 0 false (Some (mode q, true)) \/
+  (run_main q = Exit 1 true None /\ (mode q = 100 \/ mode q = 118) /\ (4 < ctype q \/ 2 < htype q \/ ctype q < -1 \/ htype q < -1)) \/
+  (run_main q = Exit 255 (negb (no_echo q)) (Some (mode q, false)) /\ (mode q = 100 \/ mode q = 118)).
+Proof.
+  intros q G. unfold run_main.
+  destruct ((mode q =? 86) || (mode q =? 104)) eqn:EVh; [left; reflexivity|].
+  destruct G as [G|[G|[G|G]]]; [lia| | |].
+  - destruct G as [Hm [Hf [Hk [Ho [Hc Hh]]]]].
+    destruct ((ctype q <? -1) || (4 <? ctype q) || (htype q <? -1) || (2 <? htype q)) eqn:Er; [lia|].
+    destruct (fp q) as [f|]; [|discriminate Hf].
+    destruct (key q) as [k|]; [|discriminate Hk].
+    destruct (Z.eqb_spec (mode q) 101) as [_|N]; [|lia].
+    rewrite Ho, Hm. left; reflexivity.
+  - destruct G as [Hm [Hf [Hk Ho]]].
+    destruct ((ctype q <? -1) || (4 <? ctype q) || (htype q <? -1) || (2 <? htype q)) eqn:Er.
+    { right; left. split; [reflexivity|]. split; [left; exact Hm|]. lia. }
+    destruct (fp q) as [f|]; [|discriminate Hf].
+    destruct (key q) as [k|]; [|discriminate Hk].
+    destruct (Z.eqb_spec (mode q) 101) as [E|_]; [lia|].
+    destruct (Z.eqb_spec (mode q) 100) as [_|N]; [|lia].
+    rewrite Ho, Hm.
+    destruct (match f with FWenc k' => Nat.eqb k k' | _ => false end).
+    + left; reflexivity.
+    + right; right. split; [reflexivity|left; reflexivity].
+  - destruct G as [Hm [Hf Hk]].
+    destruct ((ctype q <? -1) || (4 <? ctype q) || (htype q <? -1) || (2 <? htype q)) eqn:Er.
+    { right; left. split; [reflexivity|]. split; [right; exact Hm|]. lia. }
+    destruct (fp q) as [f|]; [|discriminate Hf].
+    destruct (key q) as [k|]; [|discriminate Hk].
+    destruct (Z.eqb_spec (mode q) 101) as [E|_]; [lia|].
+    destruct (Z.eqb_spec (mode q) 100) as [E|_]; [lia|].
+    rewrite Hm.
+    destruct (match f with FWenc k' => Nat.eqb k k' | _ => false end).
+    + left; reflexivity.
+    + right; right. split; [reflexivity|right; reflexivity].
+Qed.
+
+(* the three shapes of [cli ts] *)
+Inductive cli_shape (ts : list tok) : Prop :=
+| shape_early : cli ts = Exit 1 true None -> cli_shape ts
+| shape_run : forall p q,
+    parse_all pak0 ts = Some p -> Inv ts p -> post_checks p = Some q ->
+    Good q -> mode q = mode p -> mode p <> 117 -> no_echo q = no_echo p ->
+    isSome (fp q) = isSome (fp p) -> (mode p <> 101 -> q = p) ->
+    cli ts = run_main q -> cli_shape ts.
+
+Lemma cli_cases : forall ts, cli_shape ts.
+Proof.
+  intros ts. unfold cli.
+  destruct (parse_all pak0 ts) as [p|] eqn:Ep.
+  - pose proof (parse_Inv ts p Ep) as I.
+    pose proof (post_good p (Inv_mode_cases ts p I)) as PG.
+    destruct (post_checks p) as [q|] eqn:Eq.
+    + destruct PG as [G [Hm [N117 [Hne [Hfp Hqp]]]]].
+      apply (shape_run ts p q); try assumption.
+      unfold cli. rewrite Ep, Eq. reflexivity.
+    + apply shape_early. unfold cli. rewrite Ep, Eq. reflexivity.
+  - apply shape_early. unfold cli. rewrite Ep. reflexivity.
+Qed.
+
+(* ------------------------------------------------------------------ *)
+(* the six lemmas of Properties_C17                                     *)
+
+Lemma C17_never_crashes_proof : forall ts, cli ts <> Crash.
+Proof.
+  intros ts. destruct (cli_cases ts) as [H | p q Ep I Eq G Hm N117 Hne Hfp Hqp H]; rewrite H.
+  - discriminate.
+  - destruct (run_good q G) as [R|[[R _]|[R _]]]; rewrite R; discriminate.
+Qed.
+
+Lemma C17_exit_zero_iff_success_proof : forall ts c d op,
+  cli ts = Exit c d op -> (c = 0 <-> exists m, op = Some (m, true)).
+Proof.
+  intros ts c d op Hc.
+  destruct (cli_cases ts) as [H | p q Ep I Eq G Hm N117 Hne Hfp Hqp H]; rewrite H in Hc.
+  - injection Hc as <- <- <-. split; [intros E; discriminate E | intros [m E]; discriminate E].
+  - destruct (run_good q G) as [R|[[R _]|[R _]]]; rewrite R in Hc; injection Hc as <- <- <-.
+    + split; [intros _; exists (mode q); reflexivity | intros _; reflexivity].
+    + split; [intros E; discriminate E | intros [m E]; discriminate E].
+    + split; [intros E; discriminate E | intros [m E]; discriminate E].
+Qed.
+
+Lemma C17_failure_is_diagnosed_proof : forall ts c d op,
+  cli ts = Exit c d op -> c <> 0 ->
+  d = true \/ (has_no_echo ts = true /\ exists m, op = Some (m, false)).
+Proof.
+  intros ts c d op Hc Hnz.
+  destruct (cli_cases ts) as [H | p q Ep I Eq G Hm N117 Hne Hfp Hqp H]; rewrite H in Hc.
+  - injection Hc as <- <- <-. left; reflexivity.
+  - destruct (run_good q G) as [R|[[R _]|[R _]]]; rewrite R in Hc; injection Hc as <- <- <-.
+    + exfalso; apply Hnz; reflexivity.
+    + left; reflexivity.
+    + rewrite Hne, <- (inv_ne ts p I).
+      destruct (has_no_echo ts).
+      * right. split; [reflexivity|]. exists (mode q); reflexivity.
+      * left; reflexivity.
+Qed.
+
+Example C17_failure_is_diagnosed_nonvacuous :
+  cli [T_n; T_d; T_i false true FPlain; T_o true; T_k (KValid 3)] = Exit 255 false (Some (100, false)) /\ 255 <> 0 /\
+  cli [T_d; T_i false true FPlain; T_o true; T_k (KValid 3)] = Exit 255 true (Some (100, false)) /\
+  cli [T_d; T_d] = Exit 1 true None.
+Proof. vm_compute. repeat split; discriminate. Qed.
+
+Lemma C17_success_requirements_proof : forall ts d m,
+  cli ts = Exit 0 d (Some (m, true)) ->
+  count_modes ts = 1%nat /\
+  (m = 101 \/ m = 100 \/ m = 118 -> has_input ts = true) /\
+  (m = 100 \/ m = 118 -> has_valid_key ts = true) /\
+  (m = 100 -> has_output ts = true).
+Proof.
+  intros ts d m Hc.
+  destruct (cli_cases ts) as [H | p q Ep I Eq G Hm N117 Hne Hfp Hqp H]; rewrite H in Hc; [discriminate Hc|].
+  destruct (run_good q G) as [R|[[R _]|[R _]]]; rewrite R in Hc; try discriminate Hc.
+  injection Hc as _ Em.
+  split; [exact (inv_m1 ts p I N117)|].
+  rewrite (inv_fp ts p I), (inv_key ts p I), (inv_out ts p I), <- Hfp.
+  split; [|split].
+  - intros Hcase. destruct G as [G|[G|[G|G]]]; [lia| | |].
+    + destruct G as [_ [Hf _]]; exact Hf.
+    + destruct G as [_ [Hf _]]; exact Hf.
+    + destruct G as [_ [Hf _]]; exact Hf.
+  - intros Hcase. rewrite <- (Hqp ltac:(lia)).
+    destruct G as [G|[G|[G|G]]]; [lia|lia| |].
+    + destruct G as [_ [_ [Hk _]]]; exact Hk.
+    + destruct G as [_ [_ Hk]]; exact Hk.
+  - intros Hcase. rewrite <- (Hqp ltac:(lia)).
+    destruct G as [G|[G|[G|G]]]; [lia|lia| |lia].
+    destruct G as [_ [_ [_ Ho]]]; exact Ho.
+Qed.
+
+Example C17_success_requirements_nonvacuous :
+  cli [T_k (KValid 7); T_o true; T_i true false (FWenc 7); T_cmode 3; T_d] = Exit 0 false (Some (100, true)) /\
+  cli [T_v; T_i true false (FWenc 7); T_k (KValid 7)] = Exit 0 false (Some (118, true)) /\
+  cli [T_i false true FPlain; T_hmode 2; T_e] = Exit 0 false (Some (101, true)) /\
+  cli [T_V] = Exit 0 false (Some (86, true)).
+Proof. vm_compute. repeat split. Qed.
+
+(* no package from post_checks, or Settings' constructor exits, when a type number is out of range *)
+Lemma bad_range_exit : forall p,
+  (mode p = 117 \/ mode p = 101 \/ mode p = 100 \/ mode p = 118) ->
+  4 < ctype p \/ 2 < htype p ->
+  match post_checks p with None => Exit 1 true None | Some q => run_main q end = Exit 1 true None.
+Proof.
+  intros p Hm Hr. unfold post_checks. cbv zeta.
+  destruct (Z.eqb_spec (mode p) 117) as [E117|N117]; [reflexivity|].
+  destruct (Z.eqb_spec (mode p) 101) as [E101|N101].
+  - destruct (Z.eqb_spec (ctype p) (-1)) as [Ec1|Nc1];
+    destruct ((0 <=? ctype p) && (ctype p <? 5)) eqn:Ec;
+    destruct (Z.eqb_spec (htype p) (-1)) as [Eh1|Nh1];
+    destruct ((0 <=? htype p) && (htype p <? 3)) eqn:Eh;
+    cbv beta iota; try reflexivity; exfalso; lia.
+  - destruct ((mode p =? 100) || (mode p =? 118)) eqn:Edv; [|exfalso; lia].
+    destruct (fp p) as [f|] eqn:Ef; [|reflexivity].
+    destruct (key p) as [k|] eqn:Ek; [|reflexivity].
+    destruct ((mode p =? 100) && negb (out p)) eqn:Eo; [reflexivity|].
+    unfold run_main.
+    destruct ((mode p =? 86) || (mode p =? 104)) eqn:EVh; [exfalso; lia|].
+    destruct ((ctype p <? -1) || (4 <? ctype p) || (htype p <? -1) || (2 <? htype p)) eqn:Er; [reflexivity|].
+    exfalso; lia.
+Qed.
+
+Lemma C17_documented_failures_proof : forall ts,
+  (count_modes ts <> 1%nat \/
+   In (T_k KInvalid) ts \/
+   (~ In T_V ts /\ ~ In T_h ts /\ exists n, (In (T_cmode n) ts /\ (n < 0 \/ 4 < n)) \/ (In (T_hmode n) ts /\ (n < 0 \/ 2 < n))) \/
+   (In T_d ts /\ (has_valid_key ts = false \/ has_output ts = false \/ has_input ts = false)) \/
+   (In T_v ts /\ (has_valid_key ts = false \/ has_input ts = false)) \/
+   (In T_e ts /\ has_input ts = false)) ->
+  exists c, cli ts = Exit c true None /\ c = 1.
+Proof.
+  intros ts Hd. exists 1. split; [|reflexivity].
+  destruct (cli_cases ts) as [H | p q Ep I Eq G Hm N117 Hne Hfp Hqp H]; [exact H|].
+  destruct Hd as [D|[D|[D|[D|[D|D]]]]].
+  - exfalso. apply D. exact (inv_m1 ts p I N117).
+  - exfalso. exact (inv_kinv ts p I D).
+  - destruct D as [NV [Nh [n Hn]]].
+    assert (Hmodes : mode p = 117 \/ mode p = 101 \/ mode p = 100 \/ mode p = 118).
+    { destruct (Inv_mode_cases ts p I) as [M|[M|[M|[M|[M|M]]]]]; try tauto.
+      - exfalso. exact (NV (Inv_mode_V ts p I M)).
+      - exfalso. exact (Nh (Inv_mode_h ts p I M)). }
+    assert (Hr : 4 < ctype p \/ 2 < htype p).
+    { destruct Hn as [[Hin Hn]|[Hin Hn]].
+      - destruct (inv_c ts p I n Hin) as [Ec Ln]. left. lia.
+      - destruct (inv_h ts p I n Hin) as [Eh Ln]. right. lia. }
+    pose proof (bad_range_exit p Hmodes Hr) as B. rewrite Eq in B.
+    rewrite H. exact B.
+  - destruct D as [Hin Hmiss].
+    pose proof (inv_min ts p I T_d eq_refl Hin) as M. cbn [code] in M.
+    rewrite (inv_key ts p I), (inv_out ts p I), (inv_fp ts p I) in Hmiss.
+    rewrite <- (Hqp ltac:(lia)) in Hmiss.
+    exfalso. destruct G as [G|[G|[G|G]]]; [lia|lia| |lia].
+    destruct G as [_ [Hf [Hk Ho]]]. rewrite Hf, Hk, Ho in Hmiss.
+    destruct Hmiss as [X|[X|X]]; discriminate X.
+  - destruct D as [Hin Hmiss].
+    pose proof (inv_min ts p I T_v eq_refl Hin) as M. cbn [code] in M.
+    rewrite (inv_key ts p I), (inv_fp ts p I) in Hmiss.
+    rewrite <- (Hqp ltac:(lia)) in Hmiss.
+    exfalso. destruct G as [G|[G|[G|G]]]; [lia|lia|lia| ].
+    destruct G as [_ [Hf Hk]]. rewrite Hf, Hk in Hmiss.
+    destruct Hmiss as [X|X]; discriminate X.
+  - destruct D as [Hin Hmiss].
+    pose proof (inv_min ts p I T_e eq_refl Hin) as M. cbn [code] in M.
+    rewrite (inv_fp ts p I), <- Hfp in Hmiss.
+    exfalso. destruct G as [G|[G|[G|G]]]; [lia| |lia|lia].
+    destruct G as [_ [Hf _]]. rewrite Hf in Hmiss. discriminate Hmiss.
+Qed.
+
+(* every disjunct of the hypothesis is satisfiable, including the one that reaches Settings' exit(1) *)
+Example C17_documented_failures_nonvacuous :
+  (count_modes [T_e; T_i false true FPlain; T_d] <> 1%nat /\ count_modes [T_i false true FPlain] <> 1%nat) /\
+  In (T_k KInvalid) [T_d; T_k KInvalid] /\
+  (let ts := [T_d; T_i false true (FWenc 1); T_o true; T_k (KValid 1); T_cmode 9] in
+   ~ In T_V ts /\ ~ In T_h ts /\ In (T_cmode 9) ts /\ 4 < 9 /\
+   parse_all pak0 ts <> None /\ (exists p, parse_all pak0 ts = Some p /\ post_checks p <> None) /\
+   cli ts = Exit 1 true None) /\
+  (let ts := [T_v; T_i false true (FWenc 1); T_k (KValid 1); T_hmode 3] in
+   ~ In T_V ts /\ ~ In T_h ts /\ In (T_hmode 3) ts /\ 2 < 3 /\ cli ts = Exit 1 true None) /\
+  (let ts := [T_d; T_i false true (FWenc 1); T_k (KValid 1)] in In T_d ts /\ has_output ts = false) /\
+  (let ts := [T_v; T_i false true (FWenc 1)] in In T_v ts /\ has_valid_key ts = false) /\
+  (let ts := [T_e; T_o true] in In T_e ts /\ has_input ts = false).
+Proof.
+  cbv zeta. repeat split; try (vm_compute; reflexivity); try (cbn [In]; tauto);
+    try (vm_compute; discriminate);
+    try (cbn [In]; intros H; repeat (destruct H as [H|H]; [discriminate H|]); exact H).
+  eexists; split; [vm_compute; reflexivity | vm_compute; discriminate].
+Qed.
+
+Example C17_exit_zero_iff_success_nonvacuous :
+  cli [T_h] = Exit 0 false (Some (104, true)) /\
+  cli [T_e] = Exit 1 true None /\
+  cli [T_v; T_i false false (FWenc 2); T_k (KValid 5); T_n] = Exit 255 false (Some (118, false)).
+Proof. vm_compute. repeat split. Qed.
+
+Lemma C17_defaults_proof : forall g,
+  cli [T_e; T_i false true FPlain] = Exit 0 false (Some (101, true)) /\
+  cli [T_d; T_i false g (FWenc RANDOM_KEY); T_o true; T_k (KValid RANDOM_KEY)] = Exit 0 false (Some (100, true)).
+Proof. intros g. split; [vm_compute; reflexivity | destruct g; vm_compute; reflexivity]. Qed.
+
+Print Assumptions C17_never_crashes_proof.
+Print Assumptions C17_exit_zero_iff_success_proof.
+Print Assumptions C17_failure_is_diagnosed_proof.
+Print Assumptions C17_success_requirements_proof.
+Print Assumptions C17_documented_failures_proof.
+Print Assumptions C17_defaults_proof.
